@@ -87,8 +87,10 @@ def build(system, rows, mom, struct, route, spelling, special=None, tag=""):
     if tag:
         extras = {"charge" + tag: col(lambda r: int(r % 5 + 10), numpy.int64)} if not empty else {"charge" + tag: ak.Array(numpy.zeros(0, dtype=numpy.int64))}
     elif not empty and any(isinstance(l, int) for l in awk.flat_leaves(struct)):
+        # 'qopt' is missing for some particles whose coordinates are all present (an option type on one field only)
         extras = {"charge": col(lambda r: int(r % 3 - 1)), "label": col(lambda r: f"trk{r}"),
-                  "hits": col(lambda r: [float(r), float(r) + 0.5][: (r % 3)])}
+                  "hits": col(lambda r: [float(r), float(r) + 0.5][: (r % 3)]),
+                  "qopt": col(lambda r: None if r % 2 else int(r) - 3)}
     elif not empty:
         extras = {"charge": col(lambda r: int(r % 3 - 1), numpy.int64)}
     else:
@@ -102,7 +104,7 @@ def build(system, rows, mom, struct, route, spelling, special=None, tag=""):
             def rec(r):
                 d = {nm: float(rows[r][i]) for i, nm in enumerate(names)}
                 # vector.Array type-checks every field of the records: numeric extra fields only on this route
-                d.update({"charge": int(r % 3 - 1), "iso": float(r) / 8})
+                d.update({"charge": int(r % 3 - 1), "iso": float(r) / 8, "qopt": None if r % 2 else int(r) - 3})
                 return d
             arr = ak.Array(awk.map_struct(struct, rec))
             if not any(isinstance(l, int) for l in awk.flat_leaves(struct)):
